@@ -566,7 +566,9 @@ def obligations(tier):
                 h = Kernel(which=which, fn=fn, n=n, m=m, k=k)
                 h.weight = 2 ** (m * k * (2 if fn == "mate" else 1))
                 obs.append(h)
-    counts = [(1, 1), (2, 1), (1, 2), (2, 2), ([1, 2], [2, 1])] if tier == "quick" else [(1, 1), (2, 1), (1, 2), (2, 2), ([1, 2], [2, 1]), ([2, 1], [1, 2]), (1, [1, 2]), ([2, 2], 1)]
+    # per-cross arrays include a cross that yields no progeny at all (count 0): counters and family labels must still advance per cross
+    counts = [(1, 1), (2, 1), (1, 2), (2, 2), ([1, 2], [2, 1]), (1, [2, 0]), ([0, 1], 1)] if tier == "quick" else \
+        [(1, 1), (2, 1), (1, 2), (2, 2), ([1, 2], [2, 1]), ([2, 1], [1, 2]), (1, [1, 2]), ([2, 2], 1), (1, [2, 0]), ([0, 1], 1), ([1, 2], [0, 2]), (2, [0, 1])]
     for prot, (modname, npar, prefix) in PROTS.items():
         for xc in _configs(npar, tier):
             for nm, npg in counts:
